@@ -72,6 +72,15 @@ def gen_plan(rng, index, tier):
             # that fills the rest of the pitch follow); the first look afterwards is at an area
             steps.append({"op": "heat", "level": "component", "idx": rng.randrange(1000), "nuc": 0, "nuc2": 0, "f": 1.0, "frac": 0.1, "mass": 1.0, "T": rng.choice([400.0, 520.0, 650.0]), "look": rng.choice(["area", "volume"])})
             continue
+        if rng.random() < 0.06:
+            # one block of an assembly is stretched or squeezed (axial expansion does that)
+            steps.append({"op": "height", "level": "block", "idx": rng.randrange(1000), "nuc": 0, "nuc2": 0, "f": rng.choice([0.8, 1.15, 1.4]), "frac": 0.1, "mass": 1.0})
+            continue
+        if rng.random() < 0.05:
+            # the fuel changes temperature, somebody reads the volume of the bond next to it (only
+            # that), and the fuel changes temperature again
+            steps.append({"op": "heat2", "level": "component", "idx": rng.randrange(1000), "nuc": 0, "nuc2": 0, "f": 1.0, "frac": 0.1, "mass": 1.0, "T": rng.choice([420.0, 560.0]), "T2": rng.choice([480.0, 700.0])})
+            continue
         if rng.random() < 0.05:
             # a lumped fission product / dummy nuclide appears in a fuel component (truncated depletion chains do that)
             steps.append({"op": "dump", "level": "component", "idx": rng.randrange(1000), "nuc": 0, "nuc2": 0, "f": 1.0, "frac": 0.1, "mass": 1.0, "which": rng.choice(["DUMP1", "DUMP2", "LFP35"])})
@@ -317,6 +326,26 @@ class Runner:
                 c.parent.parent.getVolume()
             self.probe("component_heated")
             self.sig.append(("component", "heat"))
+            return True
+        if st["op"] == "height":
+            blks = c06.objects_at_level(self.r, "block")
+            b = blks[st["idx"] % len(blks)]
+            b.setHeight(float(b.getHeight()) * st["f"])
+            b.parent.calculateZCoords()
+            self.probe("block_height_changed")
+            self.sig.append(("block", "height"))
+            return True
+        if st["op"] == "heat2":
+            blks = [b for b in c06.objects_at_level(self.r, "block") if b.getComponentByName("fuel") is not None and b.getComponentByName("bond") is not None]
+            if not blks:
+                return False
+            b = blks[st["idx"] % len(blks)]
+            fuel, bond = b.getComponentByName("fuel"), b.getComponentByName("bond")
+            fuel.setTemperature(st["T"])
+            bond.getVolume()
+            fuel.setTemperature(st["T2"])
+            self.probe("fuel_heated_twice_with_a_look_at_the_bond")
+            self.sig.append(("component", "heat2"))
             return True
         if st["op"] == "dump":
             comps = [c for c in c06.objects_at_level(self.r, "component") if c.name == "fuel"]
